@@ -39,6 +39,8 @@ type Sig struct {
 	AnyOf      []string `json:"any_of,omitempty"`
 	Hay        []string `json:"hay,omitempty"`
 	Sites      []string `json:"sites,omitempty"`
+	KindsNot   []string `json:"kinds_not,omitempty"`
+	APIsNot    []string `json:"apis_not,omitempty"`
 }
 
 // Finding is one entry of known_findings.json.
@@ -85,8 +87,19 @@ func in(list []string, v string) bool {
 		if x == v {
 			return true
 		}
-		if strings.HasSuffix(x, "*") && strings.HasPrefix(v, strings.TrimSuffix(x, "*")) {
-			return true
+		switch {
+		case len(x) >= 2 && strings.HasPrefix(x, "*") && strings.HasSuffix(x, "*"):
+			if strings.Contains(v, x[1:len(x)-1]) {
+				return true
+			}
+		case strings.HasSuffix(x, "*"):
+			if strings.HasPrefix(v, strings.TrimSuffix(x, "*")) {
+				return true
+			}
+		case strings.HasPrefix(x, "*"):
+			if strings.HasSuffix(v, strings.TrimPrefix(x, "*")) {
+				return true
+			}
 		}
 	}
 	return false
@@ -101,6 +114,12 @@ func has(feats []string, f string) bool {
 func (s *Sig) Matches(d *Disc) bool {
 	if !in(s.Props, d.Prop) || !in(s.Groups, d.Group) || !in(s.APIs, d.API) || !in(s.Modes, d.Mode) ||
 		!in(s.Kinds, d.Kind) || !in(s.Layers, d.Layer) || !in(s.Strategies, d.Strategy) || !in(s.Hay, d.Hay) || !in(s.Sites, d.Site) {
+		return false
+	}
+	if len(s.KindsNot) > 0 && in(s.KindsNot, d.Kind) {
+		return false
+	}
+	if len(s.APIsNot) > 0 && in(s.APIsNot, d.API) {
 		return false
 	}
 	for _, f := range s.Must {
